@@ -59,6 +59,14 @@ def run_case(case):
     if cfg["start_preconditioning_step"] < cfg["precondition_frequency"]:
         cfg["start_preconditioning_step"] = cfg["precondition_frequency"]
     shapes = G.rand_shapes(rnd, n_params=rnd.randint(2, 3), max_order=3, max_numel=120)
+    if case["seed"][-1] % 4 == 1:
+        # a group of square 2-D blocks only (nothing forces a graph break), optionally with an ignored dimension
+        k_ = rnd.choice([2, 3, 4])
+        shapes = [[k_, k_] for _ in range(rnd.randint(2, 3))]
+        cfg["max_preconditioner_dim"] = 1024
+        cfg["use_merge_dims"] = False  # keep the blocks 2-D
+        cfg["inv_root_override"] = 0
+        cfg["precond"]["ignored_dims"] = rnd.choice([[0], [0], [1], []])
     if case["dynamic"] is not False:
         # torch limits the number of mutated graph inputs that alias one storage under dynamic shapes (5): keep blocks per parameter small
         while max(G.n_blocks(sh, cfg["max_preconditioner_dim"], cfg["use_merge_dims"]) for sh in shapes) > 4:
@@ -83,8 +91,12 @@ def run_case(case):
     gg = tgen(*case["seed"], "grads")
     counters = {"evals": 0, "steps_bitwise": 0, "steps_within_tolerance": 0, "tensors_compared": 0, "presence_changes": changes}
     desc = {"backend": case["backend"], "dynamic": case["dynamic"], "cfg": cfg, "shapes": shapes, "presence": pres}
+    reuse_steps = set(rnd.sample(range(1, T), rnd.choice([0, 1, 2])))  # step() called again on the gradient tensors left by the previous step
     for t in range(T):
         for j in range(len(shapes)):
+            if t in reuse_steps and pres[t][j] and pres[t - 1][j]:
+                counters["reused_gradient_steps"] = counters.get("reused_gradient_steps", 0) + 1
+                continue  # same .grad objects as after the previous step, on both twins
             g = G.grad_for(torch, gg, shapes[j], dt, "dense", gs * (1 + j)) if pres[t][j] else None
             A[j].grad = None if g is None else g.clone()
             B[j].grad = None if g is None else g.clone()
@@ -103,6 +115,11 @@ def run_case(case):
         for j, (p, q) in enumerate(zip(A, B)):
             ta = [(("param",), p.detach())] + list(walk_state(optA.state[p], torch, OM))
             tb = [(("param",), q.detach())] + list(walk_state(optB.state[q], torch, OM))
+            if (p.grad is None) != (q.grad is None):
+                raise Violation(f"step {t + 1}: gradient presence of parameter {j} differs after the step", step=t + 1, **desc)
+            if p.grad is not None:
+                ta.append((("grad_after_step",), p.grad.detach()))
+                tb.append((("grad_after_step",), q.grad.detach()))
             if [x for x, _ in ta] != [x for x, _ in tb]:
                 raise Violation(f"step {t + 1}: compiled optimizer holds a different set of state tensors for parameter {j}", step=t + 1, **desc)
             for (path, x), (_, y) in zip(ta, tb):
